@@ -93,14 +93,14 @@ static WasmLabelStack ls;
 static StringBuilder sbuf;
 static WasmCFunctionWriter w;
 static size_t H0, K, KD, DLEN0; static int HAS_KD;
-static WasmValueType T[4], OLDK, OLDKD, OLDD;
+static WasmValueType T[3], OLDK, OLDKD, OLDD;
 
 static int valid_t(WasmValueType t) { return (unsigned)t <= 3; }
 
 /* n operands on top of a stack of symbolic height h; entry types symbolic; declarations as after any prefix of a function */
 static void setup(unsigned n) {
     ND(size_t, h); ND(size_t, cap); ND(size_t, dlen); ND(size_t, dcap); ND(size_t, k); ND(size_t, kd);
-    ND(int, haskd); ND(unsigned, t0); ND(unsigned, t1); ND(unsigned, t2); ND(unsigned, t3); ND(unsigned, oldk); ND(unsigned, oldkd); ND(unsigned, oldd);
+    ND(int, haskd); ND(unsigned, t0); ND(unsigned, t1); ND(unsigned, t2); ND(unsigned, oldk); ND(unsigned, oldkd); ND(unsigned, oldd);
     unsigned i;
     ASSUME(h >= n && h <= HMAX && cap >= h && cap >= 1 && cap <= HMAX + 4);
     /* every push declares its slot, so declarations reach at least up to the operands; the destination slot h-n may be new */
@@ -108,7 +108,7 @@ static void setup(unsigned n) {
 #ifdef NO_GROW
     ASSUME(dcap > h && cap > h);
 #endif
-    ASSUME(t0 <= 3 && t1 <= 3 && t2 <= 3 && t3 <= 3 && oldkd <= 15 && oldd <= 15);
+    ASSUME(t0 <= 3 && t1 <= 3 && t2 <= 3 && oldkd <= 15 && oldd <= 15);
 #ifdef CONST_OBJ   /* objects of constant (maximal) size, symbolic capacity fields */
     ts.valueTypes = malloc((HMAX + 4) * sizeof(WasmValueType)); ASSUME(ts.valueTypes != 0);
     decl.valueTypes = malloc((HMAX + 4) * sizeof(WasmValueType)); ASSUME(decl.valueTypes != 0);
@@ -117,7 +117,7 @@ static void setup(unsigned n) {
     decl.valueTypes = malloc(dcap * sizeof(WasmValueType)); ASSUME(decl.valueTypes != 0);
 #endif
     ts.length = h; ts.capacity = cap; decl.length = dlen; decl.capacity = dcap;
-    T[0] = (WasmValueType)t0; T[1] = (WasmValueType)t1; T[2] = (WasmValueType)t2; T[3] = (WasmValueType)t3;
+    T[0] = (WasmValueType)t0; T[1] = (WasmValueType)t1; T[2] = (WasmValueType)t2;
     for (i = 0; i < n; i++) ts.valueTypes[h - 1 - i] = T[i];
     /* ghost entries: one below the operands in the type stack, one anywhere in the declarations, and the destination's old declaration word */
     K = k; KD = kd; H0 = h; DLEN0 = dlen;
@@ -369,19 +369,16 @@ void h_ignored(void) { bool ok; size_t len0, dl0; setup(1); local_setup(); w.ign
 #ifndef NRES
 #define NRES 1
 #endif
-static WasmFunctionType g_cft; static WasmValueType g_cpt[4]; static WasmValueType g_crt[1]; static WasmFunction g_fns[4];
+static WasmFunctionType g_cft; static WasmValueType g_cpt[4]; static WasmValueType g_crt[1]; static WasmFunction* g_fns;
 static U32 CALL_F; static unsigned CALL_R;
-#ifndef CALL_FIDX
-#define CALL_FIDX 3
-#endif
-static void call_setup(int indirect) { U32 f = CALL_FIDX; U32 nf = 4;   /* the function index is a job constant: a symbolic index into the array of (large) function records exhausted the solver's memory */
-    ND(unsigned, r); ND(unsigned, q0); ND(unsigned, q1); ND(unsigned, q2); unsigned L;
-    ASSUME(r <= 3 && q0 <= 3 && q1 <= 3 && q2 <= 3);
+static void call_setup(int indirect) { ND(U32, f); ND(U32, nf); ND(unsigned, r); ND(unsigned, q0); ND(unsigned, q1); ND(unsigned, q2); unsigned L;
+    ASSUME(r <= 3 && q0 <= 3 && q1 <= 3 && q2 <= 3 && nf >= 1 && nf <= (1u << 20) && f < nf);
     memset(&g_mod, 0, sizeof g_mod); w.module = &g_mod; w.ignore = false; w.moduleName = "mod"; w.multipleModules = false;
     g_cpt[0] = (WasmValueType)q0; g_cpt[1] = (WasmValueType)q1; g_cpt[2] = (WasmValueType)q2; g_crt[0] = (WasmValueType)r;
     g_cft.parameterCount = NPAR; g_cft.parameterTypes = g_cpt; g_cft.resultCount = NRES; g_cft.resultTypes = g_crt;
     g_mod.functionTypes.functionTypes = &g_cft; g_mod.functionTypes.count = 1;
-    g_fns[0].functionTypeIndex = 0; g_fns[1].functionTypeIndex = 0; g_fns[2].functionTypeIndex = 0; g_fns[3].functionTypeIndex = 0;
+    g_fns = (WasmFunction*)malloc(nf * sizeof(WasmFunction)); ASSUME(g_fns != 0);
+    memset(&g_fns[f], 0, sizeof(WasmFunction));                 /* function f has type 0; every other entry is unconstrained */
     g_mod.functions.functions = g_fns; g_mod.functions.count = nf;
     CALL_F = f; CALL_R = r;
     /* immediates: call f | call_indirect typeidx 0, table 0 - padded LEB128 */
